@@ -24,6 +24,11 @@ Definition ex_gfile (s t : nat) : gfile :=
     [[Z.of_nat (100 * k); Z.of_nat (100 * k + 1)]; [Z.of_nat (100 * k + 10); Z.of_nat (100 * k + 11)]]
     [0; 1; 0; 0; 0; 1]%Q [inject_Z x; 0; 0]%Q (1, 1)%Q 1%Q ex_u16 (Some 12) (Some (ex_tm t s)).
 
+(** the same file with another dtype name *)
+Definition ex_gfile_dt (s t : nat) (d : str) : gfile :=
+  let g := ex_gfile s t in
+  mkgfile (g_file g) (g_pix g) (g_iop g) (g_ipp g) (g_ps g) (g_zs g) d (g_bits_stored g) (g_acq_time g).
+
 (** added in a scrambled order *)
 Definition ex_gs : list gfile :=
   [ex_gfile 1 1; ex_gfile 0 0; ex_gfile 2 1; ex_gfile 2 0; ex_gfile 0 1; ex_gfile 1 0].
